@@ -4,6 +4,7 @@ import (
 	"bytes"
 	"errors"
 	"fmt"
+	stdhtml "html"
 	"regexp"
 	"strings"
 	"testing/fstest"
@@ -500,6 +501,8 @@ func runC13(r *Run) {
 
 var errBoom = errors.New("boom")
 
+func stdhtmlUnescape(s string) string { return stdhtml.UnescapeString(s) }
+
 // error results declared with a concrete type or with an interface that embeds error
 type c13Err struct{ msg string }
 
@@ -516,13 +519,13 @@ func (e c13CodeErr) Code() int     { return e.code }
 
 func c13Pipes(r *Run) {
 	funcs := vuego.FuncMap{
-		"double": func(n int) int { return 2 * n },
-		"inc8":   func(n int8) int8 { return n + 1 },
-		"join2":  func(a, b string) string { return a + "+" + b },
-		"addf":   func(a, b float64) float64 { return a + b },
-		"isPos":  func(n int) bool { return n > 0 },
-		"fails":  func(s string) (string, error) { return "", errBoom },
-		"ustr":   func(u uint) string { return fmt.Sprint("u", u) },
+		"double":     func(n int) int { return 2 * n },
+		"inc8":       func(n int8) int8 { return n + 1 },
+		"join2":      func(a, b string) string { return a + "+" + b },
+		"addf":       func(a, b float64) float64 { return a + b },
+		"isPos":      func(n int) bool { return n > 0 },
+		"fails":      func(s string) (string, error) { return "", errBoom },
+		"ustr":       func(u uint) string { return fmt.Sprint("u", u) },
 		"failsPtr":   func(s string) (string, *c13Err) { return "kept", &c13Err{"ptr boom"} },
 		"okPtr":      func(s string) (string, *c13Err) { return s + "!", nil },
 		"failsCoded": func(s string) (string, c13Coded) { return "kept", c13CodeErr{7} },
@@ -630,14 +633,17 @@ func c13Pipes(r *Run) {
 						cur = nv
 					}
 				}
-				src := fmt.Sprintf(`<i data-m="1">{{ %s }}</i>`, strings.Join(parts, " | "))
+				// literal text and an earlier expression stand before the pipe: when the pipe fails, what was already
+				// written for this text node must not show up in any later value
+				src := fmt.Sprintf(`<i data-m="1" title='T:{{ s }}:{{ %s }}'>P:{{ s }}={{ %s }}</i>`, strings.Join(parts, " | "), strings.Join(parts, " | "))
 				out, err := c10RenderFuncs(src, env, funcs)
 				r.Eval("pipe:"+src, true, nil)
 				r.Count("stream:pipes(oracle only)")
 				desc := map[string]any{"template": src}
 				if okAll {
 					m := c13Txt.FindStringSubmatch(out)
-					if err != nil || m == nil || strings.TrimSpace(m[2]) != fmt.Sprint(cur) {
+					wantTxt := "P:str=" + fmt.Sprint(cur)
+					if err != nil || m == nil || strings.TrimSpace(m[2]) != strings.TrimSpace(wantTxt) || !strings.Contains(stdhtmlUnescape(m[1]), `title="T:str:`+fmt.Sprint(cur)+`"`) {
 						r.Fail("a pipe does not equal applying the functions left to right", map[string]string{"oracle": "pipe-left-to-right"}, map[string]any{"case": desc, "expected": fmt.Sprint(cur), "output": out, "err": fmt.Sprint(err)})
 					}
 				} else if err == nil {
